@@ -2,17 +2,22 @@ import Driver.C10
 import LettreVerif.Model.Mime
 import LettreVerif.Spec.MimeParse
 import LettreVerif.Proofs.Mime
+import LettreVerif.Spec.StructuredDec
 namespace LV.Driver.C11
 open LV LV.Driver LV.Mime LV.MimeParse
 
 /-- the tree a case asks for -/
 inductive Want
-  | leaf (ctype : Bytes) (isStr : Bool) (content : Bytes)
+  | leaf (ctype : Bytes) (isStr : Bool) (content : Bytes) (att : Option (Bool × Bytes) := none)
   | multi (kind : String) (parts : List Want)
 
 partial def parseWant : List String → Option (Want × List String)
   | "S" :: ct :: _cte :: kind :: content :: rest => do
     some (.leaf (← ofHex ct) (kind == "s" || kind == "P") (← ofHex content), rest)
+  | "A" :: name :: ct :: content :: rest => do
+    some (.leaf (← ofHex ct) false (← ofHex content) (some (true, ← ofHex name)), rest)
+  | "I" :: cid :: ct :: content :: rest => do
+    some (.leaf (← ofHex ct) false (← ofHex content) (some (false, ← ofHex cid)), rest)
   | "H" :: p :: h :: rest => do
     -- `MultiPart::alternative_plain_html`
     some (.multi "a" [.leaf (str "text/plain") true (← ofHex p), .leaf (str "text/html") true (← ofHex h)], rest)
@@ -70,11 +75,29 @@ def kindName (k : String) : String :=
 /-- compare what the reader recovered with what was asked for; `root` = the entity is the
     whole message -/
 partial def agrees (root : Bool) : Want → Skel → Option String
-  | .leaf ct isStr content, .leaf fields got =>
+  | .leaf ct isStr content att, .leaf fields got =>
     match field fields "content-type" with
     | none => some "part-without-content-type"
     | some v =>
       if !(ct.map lowerB).isPrefixOf (v.map lowerB) then some "part-content-type-differs" else
+      -- an attachment's own fields: the disposition, and the file name / content id a reader decodes
+      let attErr : Option String := match att with
+        | none => none
+        | some (isAtt, name) =>
+          if fields.any (fun f => f.2.any (fun b => !(b.toNat == 9 || b.toNat == 13 || b.toNat == 10 || (32 ≤ b.toNat && b.toNat ≤ 126)))) then
+            some "attachment-header-field-with-raw-non-ASCII-or-control-octet" else
+          match field fields "content-disposition" with
+          | none => some "attachment-without-content-disposition"
+          | some d =>
+            if isAtt then
+              if !(str "attachment").isPrefixOf d then some "attachment-disposition-differs"
+              else if StructuredDec.paramDecode (str "filename") d != some name then some "attachment-file-name-does-not-decode-to-the-name"
+              else none
+            else
+              if !(str "inline").isPrefixOf d then some "inline-disposition-differs"
+              else if field fields "content-id" != some ([60] ++ name ++ [62]) then some "inline-content-id-differs"
+              else none
+      if attErr.isSome then attErr else
       let exp := C10.expectedContent isStr content
       match decodeLeaf fields got with
       | none => some "leaf-does-not-decode"
@@ -90,7 +113,7 @@ partial def agrees (root : Bool) : Want → Skel → Option String
       else if kind.all Char.isUpper && (field fields "content-id").isNone then some "header-set-before-the-boundary-is-missing"
       else if wants.length != parts.length then some s!"number-of-parts-differs:{parts.length}"
       else (wants.zip parts).findSome? fun (w, p) => agrees false w p
-  | .leaf .., .multi .. => some "leaf-read-as-multipart"
+  | .leaf _ _ _ _, .multi .. => some "leaf-read-as-multipart"
   | .multi .., .leaf .. => some "multipart-read-as-leaf"
 
 def mimeOp : List String → String
@@ -104,6 +127,9 @@ def mimeOp : List String → String
       match parseEntity 12 m with
       | none => propfail "independent-parser-cannot-read-the-structure"
       | some sk =>
+        -- RFC 2045 section 4: only a message with a MIME-Version field is read as MIME at all
+        let rootFields := match sk with | .leaf f _ => f | .multi f _ => f
+        if field rootFields "mime-version" != some (str "1.0") then propfail "message-with-a-MIME-body-lacks-MIME-Version-1.0" else
         match agrees true want sk with
         | some e => propfail e
         | none =>
